@@ -17,7 +17,7 @@ for K in 1 2; do
     CMD=$(grep -m1 -E '^\s*(\$ )?(timeout [0-9]+ )?(gcc|cc) ' demo$K.txt | sed -E 's/^\s*\$ //')
     [ -z "$CMD" ] && CMD="gcc -O1 -o demo$K demo$K.c -I$W/src -I$W/_build -L$W/_build/src -Wl,-rpath,$W/_build/src -lscientific -lm -ldl -lpthread"
     echo "BUILD: $CMD" >> $L
-    ( export W=$W; eval "$CMD" ) >> $L 2>&1; echo "BUILD rc=$?" >> $L
+    ( export W=$W O=$O; eval "$CMD" ) >> $L 2>&1; echo "BUILD rc=$?" >> $L
     EXE=$(echo "$CMD" | grep -oE '\-o +[^ ]+' | head -1 | awk '{print $2}'); [ -z "$EXE" ] && EXE=demo$K
     case "$EXE" in /*) ;; *) EXE=./$EXE;; esac
     ( export W=$W LD_LIBRARY_PATH=$W/_build/src; timeout 600 $EXE ) > $O/confirm_after$K.out 2>&1; echo "DEMO-AFTER rc=$?" >> $L
